@@ -482,6 +482,10 @@ def _correspond_case(ck, op, call, sp, ans, stats):
         stats["type_proto_compared"] += len(sp["proto_obs"]["to"]) + len(sp["proto_obs"]["from"])
         _cmp("Type._to_onnx of the operand types (field presence included)", sp["proto_obs"]["to"], ans["to_proto"], d)
         _cmp("Type._from_onnx of the TypeProtos ONNX answered with", sp["proto_obs"]["from"], ans.get("from_proto", []), d)
+    # loop / scan / sequence_map / if_: the types the body's formal arguments were declared with
+    if "formals" in ans and sp.get("node") and "formals" in sp["node"]:
+        stats["body_formals_compared"] += 1
+        _cmp("declared types of the body's formal arguments", sp["node"]["formals"]["real"], ans["formals"], d)
     # the supplements that run the standard routine first: their own rules on top of its answer
     if "loop_own" in ans and sp["raised"] is None:
         stats["loop_own_compared"] += 1
